@@ -261,7 +261,7 @@ func (a *aliasAnalysis) writesParam(fn *ssa.Function, par int) (bool, string) {
 					}
 					// external callee: pure helpers only
 					name := callee.String()
-					if strings.HasPrefix(name, "math/bits.") {
+					if strings.HasPrefix(name, "math/bits.") || readOnlyStdlib(callee) {
 						continue
 					}
 					if shared[arg] && pointerLike(arg.Type()) {
@@ -605,4 +605,35 @@ func ruleC17Grow(p *Prog, r *Res) {
 	}
 	r.Note("%s: %d reslice/cap sites examined", rule, n)
 	r.Floor(rule, 2, n)
+}
+
+// readOnlyStdlib: generic helpers of the standard library that only read the slices they are given
+// (instantiations print as slices.Equal[…]; the origin's name decides).
+func readOnlyStdlib(callee *ssa.Function) bool {
+	o := callee
+	if o.Origin() != nil {
+		o = o.Origin()
+	}
+	if o.Pkg == nil || o.Pkg.Pkg == nil {
+		return false
+	}
+	switch o.Pkg.Pkg.Path() {
+	case "slices":
+		switch o.Name() {
+		case "Equal", "EqualFunc", "Compare", "CompareFunc", "Contains", "ContainsFunc", "Index", "IndexFunc",
+			"BinarySearch", "BinarySearchFunc", "IsSorted", "IsSortedFunc", "Max", "MaxFunc", "Min", "MinFunc", "Clone", "All", "Values", "Backward":
+			return true
+		}
+	case "bytes":
+		switch o.Name() {
+		case "Equal", "Compare", "Contains", "Index", "IndexByte", "HasPrefix", "HasSuffix":
+			return true
+		}
+	case "sort":
+		switch o.Name() {
+		case "Search", "SearchInts", "SearchStrings", "SliceIsSorted":
+			return true
+		}
+	}
+	return false
 }
